@@ -158,6 +158,8 @@ impl Adf {
     pub(crate) fn grounded_internal(&self, interpretation: &[Bdd]) -> Vec<Bdd> {
         let mut new_interpretation: Vec<Bdd> = interpretation.into();
         loop {
+            #[cfg(adf_obdd_verif)]
+            crate::verif::tick();
             let mut truth_extention: bool = false;
             // let var_list: Vec<(biodivine_lib_bdd::BddVariable, bool)> = self
             //     .vars
